@@ -96,6 +96,8 @@ type trackedSecret struct {
 func runC11(t *simrt.Tape, o Opts) Outcome {
 	which := t.Choose(2, "impl")
 	concurrent := t.Choose(2, "concurrent") == 1
+	// one run in 24: a reader that outlives the caller's handle on the secret, under the real collector
+	readerOnly := !concurrent && t.Choose(24, "reader-outlives-handle") == 1
 	cfg := schedCfg(t, o, concurrent)
 	var st Stats
 	st.Oracle = map[string]int{}
@@ -111,6 +113,7 @@ func runC11(t *simrt.Tape, o Opts) Outcome {
 	implName := ""
 	s := simrt.Run(t, cfg, func(s *simrt.Sim) {
 		debug.SetPanicOnFault(true)
+		s.TrackReachability = readerOnly
 		im := mkImpl(s, which)
 		implName = im.name
 		rnd := simrt.NewRand(uint64(t.Choose(1<<20, "seed")) + 11)
@@ -227,6 +230,44 @@ func runC11(t *simrt.Tape, o Opts) Outcome {
 			return ts
 		}
 		inuse0 := securememory.InUseCounter.Count()
+		if readerOnly {
+			// The caller keeps only the io.Reader it got from the secret. Whatever the collector does
+			// meanwhile, the reader still delivers the original bytes: the secret must stay reachable
+			// through it (its finalizer closes it otherwise).
+			size := secretSizes[t.Choose(len(secretSizes), "size")]
+			src := make([]byte, size)
+			rnd.Fill(src)
+			want := append([]byte(nil), src...)
+			prog = append(prog, fmt.Sprintf("New(%dB); r := NewReader(); drop the secret; GC; read r", size))
+			var r io.Reader
+			guard("create", func() {
+				sec, err := im.factory.New(src)
+				if err != nil {
+					violate("create-failed/"+im.name, "%s: creation failed without any injected fault: %v", im.name, err)
+					return
+				}
+				r = sec.NewReader()
+			})
+			if r == nil {
+				return
+			}
+			finalized := s.CollectAndFinalize()
+			s.Idle()
+			count(st.Oracle, "reader-outlives-handle")
+			guard("read", func() {
+				got, err := io.ReadAll(r)
+				callbacks++
+				if err != nil || !bytes.Equal(got, want) {
+					violate("reader-lost-its-secret/"+im.name, "%s: the caller dropped the secret and kept its reader; after a garbage collection (%d finalizer(s) ran) reading it gives err=%v, %d of %d bytes intact", im.name, finalized, err, len(got), len(want))
+				}
+			})
+			// now the reader goes too: the collector finds the secret and its finalizer releases it
+			r = nil
+			s.CollectAndFinalize()
+			s.Idle()
+			closes++
+			return
+		}
 		if !concurrent {
 			var secrets []*trackedSecret
 			nops := 3 + t.Choose(20, "nops")
